@@ -113,6 +113,19 @@ def run(tier, seed):
         i = len(jobs); sp = os.path.join(wd, "t%03d.txt" % i)
         open(sp, "w").write("\n".join(L) + "\n")
         jobs.append((i, sp, os.path.join(wd, "t%03d.nd" % i), nres + 1))
+    # resumptions the server has to decline (extended master secret offered for a session made without it) next to ordinary
+    # session-id traffic of other threads: the declining path takes and releases the session table lock like every other
+    for j in range(2 if tier == "quick" else 12):
+        nth = rnd.choice([2, 3, 4])
+        L = []
+        for t in range(nth):
+            if t == 0:
+                L += ["0 conn EA%d T12 0xc02f full" % j, "0 conn EA%d T12 0xc02f idems" % j, "0 conn EB%d T12 0x3c full" % j, "0 conn EB%d T12 0x3c idems" % j] * 3
+            else:
+                L += ["%d conn HZ%d_%d T12 0xc02f full" % (t, j, t)] + ["%d conn HZ%d_%d T12 0xc02f id" % (t, j, t)] * 6
+        i = len(jobs); sp = os.path.join(wd, "t%03d.txt" % i)
+        open(sp, "w").write("\n".join(L) + "\n")
+        jobs.append((i, sp, os.path.join(wd, "t%03d.nd" % i), nth))
     nruns = len(jobs)
     env = dict(os.environ); env["TSAN_OPTIONS"] = "halt_on_error=0 exitcode=66 second_deadlock_stack=1"
     def one(j):
